@@ -738,6 +738,28 @@ func genUnfLens(r *Rand, tier string, emit func(string)) {
 			emit(fmt.Sprintf("unf %s %s - %s", tn, init, strings.Join(toks, ",")))
 		}
 	}
+	// existing NON-NIL slices (a reused buffer, a field assigned earlier in the same document) and an
+	// array header announcing far more than the stream delivers: the announced length is a hint for
+	// the first allocation, never a licence to grow the target to it
+	bigs := []string{"1025", "65536", "16777216", "268435456", "4611686018427387904", "9223372036854775807"}
+	for _, tn := range []string{"[]int16", "[]int64", "[]any", "[]string", "[]float64", "[]bool", "[]uint8"} {
+		t := mustType(tn)
+		for i := 0; i < 3; i++ {
+			init := uRandInit(r, t, 0)
+			for _, l := range bigs {
+				emit(fmt.Sprintf("unf %s %s - [%s:0,]", tn, init, l))
+				g := &ugen{r: r, ro: RenderOpts{}}
+				toks := g.good(t, 0, nil)
+				toks[0] = fmt.Sprintf("[%s:0", l)
+				emit(fmt.Sprintf("unf %s %s - %s", tn, init, strings.Join(toks, ",")))
+			}
+		}
+	}
+	for _, l := range bigs {
+		emit(fmt.Sprintf("unf @S1 - - {-1:0,K:63,[2:0,i:1,i:2,],K:63,[%s:0,i:3,],}", l))
+		emit(fmt.Sprintf("unf @S1 - - {-1:0,K:63,[-1:0,i:1,],K:63,[%s:7,i16:3,],K:63,[%s:0,],}", l, l))
+		emit(fmt.Sprintf("unf @In2 - - {-1:0,K:71,[1:0,S:61,],K:71,[%s:0,S:62,],}", l))
+	}
 	// the same slice member several times in one document: len shrinks and grows within cap
 	for i := 0; i < tierN(tier, 300, 6000); i++ {
 		g := &ugen{r: r, ro: RenderOpts{UnknownLn: r.Bool(), Refs: r.Bool()}}
